@@ -38,7 +38,8 @@ def _signal(lock):
 
 
 WATCHDOG_S = 60.0
-STEP_LIMIT = 200000
+STEP_LIMIT = 20000  # per execution; directed runs on long streams use STEP_LIMIT_DIRECTED
+STEP_LIMIT_DIRECTED = 400000
 
 
 def msgid(m):
@@ -227,9 +228,21 @@ class Execution:
             elif k == "join":
                 if op[1].finished:
                     alts.append((t, "ok"))
+            elif k == "ev_wait":
+                if op[1]._flag:
+                    alts.append((t, "ok"))
+                elif op[2] is not None and self.tbudget > 0:
+                    tout.append((t, "timeout"))
+            elif k == "lock":
+                if op[1]._free_for(t):
+                    alts.append((t, "ok"))
+                elif op[2] is not None and self.tbudget > 0:
+                    tout.append((t, "timeout"))
             elif k == "sleep":
                 others = [x for x in self.th if x is not t and x.started and not x.finished]
-                if not others or any(x.stepped_since_sleep for x in others) or t.stepped_since_sleep:
+                # fair yield: a sleeping poller gets the processor back only after somebody else has moved
+                # (or nobody else is left); its own non-sleep steps do not count, or a poll loop would spin
+                if not others or any(x.stepped_since_sleep for x in others):
                     alts.append((t, "ok"))
                 if self.ibudget > 0:
                     intr.append((t, "interrupt"))
@@ -269,7 +282,7 @@ class Execution:
             self._end(me, finishing)
             return
         self.steps += 1
-        if self.steps > STEP_LIMIT:
+        if self.steps > (STEP_LIMIT_DIRECTED if self.policy is not None else STEP_LIMIT):
             self.outcome = "steplimit"
             self._end(me, finishing)
             return
@@ -302,10 +315,8 @@ class Execution:
             self.ibudget -= 1
         t.decision = dec
         if t.pending[0] == "sleep":
-            t.stepped_since_sleep = False
             for x in self.th:
-                if x is not t:
-                    x.stepped_since_sleep = False
+                x.stepped_since_sleep = False
         else:
             t.stepped_since_sleep = True
         self.running = t
@@ -466,6 +477,119 @@ class CtlQueue:
             return m
         ex.record(("get_nowait", "EMPTY"))
         raise Empty
+
+
+class CtlEvent:
+    """threading.Event whose blocking behaviour the scheduler decides (set = release, a successful
+    is_set / wait = acquire)."""
+
+    def __init__(self):
+        self._flag = False
+        self._vc = None
+
+    def _ctl(self):
+        ex = Execution.cur
+        if ex is None or ex.me() is None or ex.abort:
+            return None
+        return ex
+
+    def is_set(self):
+        ex = self._ctl()
+        if ex is None:
+            return self._flag
+        ex.point(("qsize", self))
+        if self._flag:
+            ex.hb_acquire(self._vc)
+        ex.record(("is_set", self._flag))
+        return self._flag
+
+    isSet = is_set
+
+    def set(self):
+        ex = self._ctl()
+        if ex is None:
+            self._flag = True
+            return
+        ex.point(("put_nowait", self))
+        self._flag = True
+        self._vc = ex.hb_release()
+        ex.record(("set",))
+
+    def clear(self):
+        ex = self._ctl()
+        if ex is not None:
+            ex.point(("put_nowait", self))
+            ex.record(("clear",))
+        self._flag = False
+
+    def wait(self, timeout=None):
+        ex = self._ctl()
+        if ex is None:
+            return self._flag
+        dec = ex.point(("ev_wait", self, timeout))
+        if dec == "timeout":
+            ex.record(("wait", "TIMEOUT"))
+            return False
+        ex.hb_acquire(self._vc)
+        ex.record(("wait", True))
+        return True
+
+
+class CtlLock:
+    """threading.Lock / RLock (re-entrancy counted per thread) under the scheduler."""
+
+    def __init__(self):
+        self._owner = None
+        self._count = 0
+        self._vc = None
+
+    def _ctl(self):
+        ex = Execution.cur
+        if ex is None or ex.me() is None or ex.abort:
+            return None
+        return ex
+
+    def _free_for(self, t):
+        return self._owner is None or self._owner is t
+
+    def acquire(self, blocking=True, timeout=-1):
+        ex = self._ctl()
+        if ex is None:
+            return True
+        me = ex.me()
+        if not blocking:
+            ex.point(("qsize", self))
+            ok = self._free_for(me)
+        else:
+            dec = ex.point(("lock", self, None if timeout in (-1, None) else timeout))
+            ok = dec != "timeout"
+        if ok:
+            self._owner = me
+            self._count += 1
+            ex.hb_acquire(self._vc)
+        ex.record(("acquire", ok))
+        return ok
+
+    def release(self):
+        ex = self._ctl()
+        if ex is None:
+            return
+        self._count -= 1
+        if self._count <= 0:
+            self._owner = None
+            self._count = 0
+        self._vc = ex.hb_release()
+        ex.record(("release",))
+
+    def locked(self):
+        return self._owner is not None
+
+    def __enter__(self):
+        self.acquire()
+        return self
+
+    def __exit__(self, *a):
+        self.release()
 
 
 def ctl_start(self):
@@ -657,6 +781,14 @@ class _ThreadingShim:
         ex.record(("enumerate", len(alive)))
         return alive
 
+    def Event(self):
+        return CtlEvent()
+
+    def Lock(self):
+        return CtlLock()
+
+    RLock = Lock
+
     def __getattr__(self, name):
         return getattr(self._real, name)
 
@@ -677,8 +809,18 @@ def install():
     workers.Worker.join = ctl_join
     workers.Worker.is_alive = ctl_is_alive
     workers.Worker.ident = property(ctl_ident)
-    cmdline.time = _TimeShim(cmdline.time)
-    cmdline.threading = _ThreadingShim(cmdline.threading)
+    # synchronisation primitives the module may have imported by name
+    for name, ctl in (("Event", CtlEvent), ("Lock", CtlLock), ("RLock", CtlLock)):
+        if hasattr(workers, name):
+            setattr(workers, name, ctl)
+    import threading as _th
+    import time as _tm
+
+    for mod in (cmdline, workers):
+        if hasattr(mod, "time") and getattr(mod, "time") is _tm:
+            mod.time = _TimeShim(_tm)
+        if hasattr(mod, "threading") and getattr(mod, "threading") is _th:
+            mod.threading = _ThreadingShim(_th)
     return workers
 
 
@@ -793,8 +935,8 @@ def explore(make, check, timeouts=0, interrupts=0, line_mode=False, preemption_b
                     st.violations.append((list(ex.trace), msg, list(ex.labels)))
         if cleanup:
             cleanup(ctx)
-        # branch
-        for i in range(len(prefix), len(ex.trace)):
+        # branch (an execution that ran into the step limit is a livelock: reported, not expanded)
+        for i in (range(len(prefix), len(ex.trace)) if ex.outcome != "steplimit" else ()):
             if cached:
                 s = ex.sigs[i]
                 if s in expanded:
